@@ -132,7 +132,7 @@ func ReadEmbeddedConfig(binaryPath string) ([]byte, error) {
 	}
 
 	// Validate config length doesn't exceed file boundaries
-	if int64(configLen) > fileSize-FooterSize {
+	if configLen > uint64(fileSize-FooterSize) {
 		return nil, ErrConfigTooLarge
 	}
 
